@@ -16,6 +16,9 @@ CLAIMS = {
  "C02": dict(cat="model_checking", ref="3 (C02)", technique="TLA+ width-arithmetic model FixedRecord.tla over the four format tables extracted from the working tree; TLC enumerates the (record kind, field, value class) lattice with expected outcomes; every point replayed through write_values_to_string/parse_string",
    text="TLC checks on the model that under the guarded writer no field ever occupies more than its columns (and, in a negative configuration, that unguarded '%' formatting spills), and emits for every field of every record kind every width-determining value class with its outcome FITS/TRIM/IMPOSSIBLE; each is concretised and written/parsed by the real code, checking line length, the focus field and every neighbour. Right level: the property is finite width arithmetic per field.",
    note="Expected parse of a fitting value is Python's own '%' formatting of that value alone; other fields carry fitting values; tables are read from /repo at run time."),
+ "C07": dict(cat="model_checking", ref="3 (C07)", technique="TLA+ navigation state machine ListingNav.tla; TLC enumerates all behaviours up to a length bound (and simulates long ones) with the specified index/return flag; each behaviour replayed on real and truncated listing files and compared with a freshly opened reader",
+   text="TLC checks range, next/prev bounds and nearest-selection on the navigation model and exports every behaviour; the harness replays them on every shipped listing with two or more result sets and on copies truncated to N=1..4 result sets, comparing index, moved-flag, time/step and all table contents with a fresh reader after every action. Right level: history independence of a small cursor state machine.",
+   note="Fresh reader positioned with index=i is the contents oracle (C05 checks that oracle against the file); time budget per file limits how many of the exported behaviours are replayed (count in evidence)."),
 }
 REASONS_PENDING = "check not built yet in this revision (see DESIGN.md section 6 build order); the specification family applies"
 NA = {
